@@ -84,6 +84,8 @@ def menu_fn(w):
     m[:] = [x for x in m if x is not None]
     # read-only calls, successful or on an unknown pid / absent document (expected class from the reference model)
     for i in range(w.NP):
+        d = step.Delete(i)          # unknown pid: rejected, nothing may change (bound pid: the ordinary delete)
+        m.append(d)
         m.append(step.Retrieve(i))
         m.append(step.HexDigest(i, "SHA-1", "sha1"))
         for f in w.formats:
